@@ -10,10 +10,13 @@
 //   un    unlink: exchange the shared pointer with a fresh object
 //   ti    Epoch::tick -> e of the objects unlinked since the last tick
 //   lw    Epoch::low_water_mark -> mark          rc   free every retired object with e <= mark
+//   sl<n> usleep(n ms), virtual time (only shapes the schedule; not part of the history)
+//   rl<h> may be applied to an accessor that is still locked (its region ends there)
 // params: ns = slots named (upper bound of ids), nh = handles, pre = accessors created before the threads start
 #include <babylon/concurrent/epoch.h>
 
 #include <sched.h>
+#include <unistd.h>
 
 #include <algorithm>
 #include <atomic>
@@ -121,6 +124,10 @@ void run_op(World& w, Local& l, const OpSpec& op) {
     objs += "]";
     l.retired.swap(keep);
     vsched::eventf(true, "\"k\":\"reclaim\",\"objs\":%s,\"mark\":%lld", objs.c_str(), small(l.mark));
+    return;
+  }
+  if (n == "sl") { // stay where we are for n ms of virtual time (only shapes the schedule)
+    usleep((useconds_t)(op.h > 0 ? op.h : 5) * 1000);
     return;
   }
   if (n == "gv") {
